@@ -1,12 +1,18 @@
 from common import COMMON_TB
 
 CONFIG = {
-    "lean_modules": ["SA.Props.C05"],
+    "lean_modules": ["SA.Props.C05", "SA.Props.C05Kinds"],
     # a regression of the class "authentication remembered from an earlier connection" keeps state in the process: name
     # a failing input that fails when run alone in a fresh harness process (see check: confirm_replay)
     "confirm_replay": True,
     "confirm_replay_prefer": r"^tlshist seqn? \S+ \S+ \S+ \S+ \S+ .*\S+,\S+,\S+,\S",   # histories whose configuration changes between attempts
-    "level_text": "Nothing remembered between connections: C05_history_independent / _seq / _config / _auth_sound / _auth_complete over histories of one process in which the client "
+    "level_text": "Every server KIND applies the full server configuration (SA.Props.C05Kinds): C05_server_kind_manager_is_server_config (regenerated: the expression every "
+                  "AcceptConnection(conn, M, ...) and every X.GetTlsConfig() of internal/server uses is the ServerConfig - `&st.ServerConfig`, `st.ServerConfig`, or the receiver where its struct "
+                  "embeds cert.ServerConfig - never the embedded base Config, which satisfies cert.TlsConfig too and never applies RequireClientCert; every path of every kind - socket tcp/unix "
+                  "StartTLS + TLS listener, packet StartTLS, stdio both, http ws/wss, dns both - has its site), C05_every_server_kind_applies_full_config (the model's per-kind manager = "
+                  "ServerConfig.GetTlsConfig), C05_client_cert_required_every_kind, C05_auth_sound_server_every_kind (a server of ANY kind requiring client certificates admits only certified "
+                  "clients, every oracle / option set), witness C05_witness_base_config_admits_uncertified; tied to the code by authmatrix cells on every kind and path in every tier. "
+                  "Nothing remembered between connections: C05_history_independent / _seq / _config / _auth_sound / _auth_complete over histories of one process in which the client "
                   "configuration IN FORCE changes between the attempts (CA replaced, client certificate dropped, verification switched, another configuration object), from any state of "
                   "the configuration object and ANY store of TLS session tickets: attempt k hands crypto/tls, and is established, exactly as the attempt made alone under the options in force for it; "
                   "C05_session_state_inventory (regenerated: no site gives a tls.Config a ClientSessionCache that outlives it, ticket keys or ticket callbacks), witnesses C05_witness_session_cache_* "
@@ -44,9 +50,9 @@ CONFIG = {
                   "a peer certified by S is acceptable exactly where no CA is configured (nil pool = crypto/tls's documented fallback to the system store, modelled as such), "
                   "this also holds for a server with require-client-cert and no CA; chain building ending in one anchor of the pool is a hypothesis (Anchored) of the anchor theorems, incl. validity-boundary certificates signed at the moment of use: "
                   "expired 60 s / 1 s ago, valid only from 120 s on, issued 60 s ago).  Carriers driven end to end: StartTLS over an in-memory duplex "
-                  "and over TCP, TLS socket, stdio+tls, (thorough) StartTLS over UDP/kcp, HTTPS websocket, StartTLS "
-                  "over websocket; the DNS carrier is covered only through the shared code (same ClientConfig, same "
-                  "startTls) and the regenerated host argument of its NewClientConnection call.  UDP secret: both ends are proved to derive the "
+                  "and over TCP, TLS socket, stdio+tls; in every tier also (server-kind cells, host forms) StartTLS over UDP/kcp, HTTPS websocket, StartTLS "
+                  "over websocket, StartTLS / TLS over a unix socket, StartTLS over stdio and over the DNS tunnel (the full certificate matrix on udp / ws / wss stays in the thorough tier); "
+                  "the DNS server's TLS listener (dns+tcp+tls) has no client in this code base - its configuration object is covered by the regenerated site fact only.  UDP secret: both ends are proved to derive the "
                   "same key, and a protected endpoint is proved never to run unencrypted; on the current tree the "
                   "64-byte key is rejected by aes.NewCipher so a password-protected UDP endpoint does not start at "
                   "all (fail-closed, observed on the real code) and 'equal secret is admitted' is not exercised.  "
@@ -56,7 +62,10 @@ CONFIG = {
     "components": [{"name": "tlscfg", "timeout": {"quick": 300, "thorough": 900}},
                    {"name": "authmatrix", "timeout": {"quick": 900, "thorough": 2400}},
                    {"name": "tlshist", "timeout": {"quick": 900, "thorough": 2400}}],
-    "rule": "tlscfg: real Config/ClientConfig/ServerConfig.GetTlsConfig on every single-field variation of three base "
+    "rule": "authmatrix server kinds (every tier): {pipe, tcp, tcp+tls, unix, unix+tls, udp, stdin, stdin+tls, ws, wss, dns} x requireClientCert=1 x client certificate {none, foreign CA, good} "
+            "(thorough: all 9 classes), requirement off x none, non-verifying client x {none, foreign}, server CA B x {A-certified, B-certified} client - real SocketServer (tcp and unix-domain, plain and +tls), "
+            "PacketServer, IoServer (stdin and stdin+tls), HttpServer (ws, wss), DnsServer with the matching real upstream. "
+            "tlscfg: real Config/ClientConfig/ServerConfig.GetTlsConfig on every single-field variation of three base "
             "configurations (cert file 5 x cert 4 x key file 6 x key 7 x password 3 x CA file 6 x CA 7 classes, both "
             "flags, 3 kinds), all pairs key x password, key file x key, CA file x CA, cert file x cert, plus 1500 "
             "(quick) / 20000 (thorough) random combinations, comparing certificate count, both pools by CA identity, "
